@@ -30,23 +30,37 @@ func commentText() []byte {
 
 // c13Base: an object with a ruled scalar and an array, or a ruled scalar root.
 func c13Base() *gen.Ex {
+	rich := v.Param("rich", 0) != 0
 	switch v.Choose(0, 2) {
 	case 0:
 		e, _ := c04Leaf(true)
 		return e
 	case 1:
-		a, _ := c04Leaf(true)
+		a, _ := c04Leaf(rich)
+		if v.Choose(0, 1) == 1 && len(a.Rules) > 0 {
+			a.Note = bs("a note")
+		}
 		b := &gen.Ex{Kind: gen.KArr, Kids: []*gen.Ex{{Kind: gen.KInt, Lit: bs("1"), Nullable: 1}}, Rules: []gen.Rule{{Name: "minItems", Value: bs("0")}, {Name: "maxItems", Value: bs("3")}}}
 		a.Optional = 1
 		return &gen.Ex{Kind: gen.KObj, Keys: [][]byte{bs("a"), bs("b")}, Kids: []*gen.Ex{a, b}, Rules: []gen.Rule{{Name: "additionalProperties", Value: bs("false")}}}
 	}
-	a, _ := c04Leaf(true)
+	a, _ := c04Leaf(rich)
 	return &gen.Ex{Kind: gen.KArr, Kids: []*gen.Ex{a, {Kind: gen.KStr, Lit: bs(`"z"`), Rules: []gen.Rule{{Name: "minLength", Value: bs("1")}, {Name: "maxLength", Value: bs("2")}}}}}
 }
 
 // c13Style picks one rewrite (or a composition of two in the thorough tier).
 func c13Style(st *gen.Style) string {
-	switch v.Choose(0, 9) {
+	switch v.Choose(0, 10) {
+	case 10:
+		// a user comment after the annotation (and its note) on the same line, under each line-end convention
+		st.Tail = commentText()
+		switch v.Choose(0, 2) {
+		case 1:
+			st.NL = bs("\r\n")
+		case 2:
+			st.NL = bs("\r")
+		}
+		return "comment-after-annotation"
 	case 0:
 		st.NL = bs("\r\n")
 		return "crlf"
@@ -264,7 +278,43 @@ func ZZC13Doc() {
 	v.Assert((r1 == nil) == (r2 == nil), "C13/validation-verdict-changes-with-document-spelling")
 }
 
+// ZZC13Pairs: pairs of spellings of the same schema / document that differ in
+// quoting of nested rule names or in string escape sequences.
+func ZZC13Pairs() {
+	pairs := [][3]string{
+		// schema A, schema B, document ("" = compare Check only)
+		{`1 // {or: [{type: "integer", enum: [1, 2]}, {type: "string"}]}`, `1 // {or: [{"type": "integer", "enum": [1, 2]}, {"type": "string"}]}`, `2`},
+		{`1 // {or: [{type: "integer", min: 1}, {type: "string", minLength: 1}]}`, `1 // {"or": [{"type": "integer", "min": 1}, {"type": "string", "minLength": 1}]}`, `"s"`},
+		{`"s" // {enum: ["s", "t"]}`, `"s" // {"enum": ["s", "t"]}`, `"t"`},
+		{"{ // {additionalProperties: \"string\"}\n  \"a\": 1\n}", "{ // {\"additionalProperties\": \"string\"}\n  \"a\": 1\n}", `{"a":1,"b":"x"}`},
+	}
+	p := pairs[v.Choose(0, len(pairs)-1)]
+	v.Observe("a", p[0])
+	v.Observe("b", p[1])
+	sa, sb := jschema.New("a", p[0]), jschema.New("b", p[1])
+	ea, eb := sa.Check(), sb.Check()
+	v.Assert((ea == nil) == (eb == nil), "C13/check-verdict-changes-with-spelling")
+	if ea == nil && eb == nil {
+		ra := sa.Validate(json.New("d", p[2]))
+		rb := sb.Validate(json.New("d", p[2]))
+		v.Assert((ra == nil) == (rb == nil), "C13/validation-verdict-changes-with-spelling")
+	}
+	// documents: the same string value spelled with different escape sequences, against const / enum / length rules
+	schemas := []string{`"a/b" // {const: true}`, `"a/b" // {enum: ["a/b", "c"]}`, `"a/b" // {minLength: 3, maxLength: 3}`, `"a/b" // {regex: "^a/b$"}`}
+	sc := jschema.New("s", schemas[v.Choose(0, len(schemas)-1)])
+	v.Assert(sc.Check() == nil, "C13/doc-schema-rejected")
+	d1 := `"a/b"`
+	d2 := []string{`"a\/b"`, `"\u0061/b"`, `"a\u002fb"`, `"a\u002Fb"`}[v.Choose(0, 3)]
+	v.Observe("doc2", d2)
+	r1 := sc.Validate(json.New("d", d1))
+	r2 := sc.Validate(json.New("d", d2))
+	v.Assert(r1 == nil, "C13/doc-example-rejected")
+	v.Assert((r1 == nil) == (r2 == nil), "C13/validation-verdict-changes-with-document-spelling")
+	v.Reach("C13/pairs")
+}
+
 func init() {
+	ZZHarnesses["ZZC13Pairs"] = ZZC13Pairs
 	ZZHarnesses["ZZC13Schema"] = ZZC13Schema
 	ZZHarnesses["ZZC13Doc"] = ZZC13Doc
 }
